@@ -204,6 +204,11 @@ def rand_vectors(prop, cfg, n, seed):
                     "padlabel": rng.random() < 0.3}
             if rng.random() < 0.05:
                 args[rng.choice(["cmode", "rmode"])] = "bogus"             # an invalid option value: rejected, nothing changes
+            elif prop == "C05" and rng.random() < 0.2:
+                # "error" is not among the documented reporting modes of insertEntry but is accepted at run time (the call then
+                # raises CollisionError AFTER replacing / merging).  Whatever state that leaves must still be a well-formed
+                # tier: only C05's clauses look at these events.
+                args["rmode"] = "error"
         elif op == "deleteEntry":
             if pre["ents"] and rng.random() < 0.8:
                 x = dict(rng.choice(pre["ents"]))
